@@ -5,11 +5,14 @@ from __future__ import annotations
 import ast
 import copy
 import random
+import warnings
 from typing import Any, Dict, List, Optional, Sequence, Tuple
 
 import bridge
 import gen
 from gen import A, C, N, call, fcall, lam, mcall
+
+warnings.filterwarnings("ignore", category=SyntaxWarning)
 
 TAG = "simp"
 EXTRACT = "FA/Extract/ExtractSimp.v"
@@ -160,7 +163,7 @@ class Seq:
         return Seq(x for x in self if f(x))
 
     def SelectMany(self, f):
-        return Seq(y for x in self for y in f(x))
+        return Seq(y for x in self for y in _seq(f(x)))
 
     def First(self):
         return self[0]
@@ -194,24 +197,31 @@ class Rec:
         return hash(self.ident)
 
 
+def _seq(s):
+    """Operators range over sequences (a Seq or a list), as in Base/Eval.v; anything else is a type error."""
+    if isinstance(s, (Seq, list)):
+        return s
+    raise TypeError("not a sequence")
+
+
 def _ops_env():
     def Select(s, f):
-        return Seq(f(x) for x in s)
+        return Seq(f(x) for x in _seq(s))
 
     def Where(s, f):
-        return Seq(x for x in s if f(x))
+        return Seq(x for x in _seq(s) if f(x))
 
     def SelectMany(s, f):
-        return Seq(y for x in s for y in f(x))
+        return Seq(y for x in _seq(s) for y in _seq(f(x)))
 
     def First(s):
-        return s[0]
+        return _seq(s)[0]
 
     def Count(s):
-        return len(s)
+        return len(_seq(s))
 
     return {"Select": Select, "Where": Where, "SelectMany": SelectMany, "First": First, "Count": Count,
-            "len": len, "__builtins__": {}}
+            "len": Count, "__builtins__": {}}
 
 
 def make_datasets(rng: random.Random, n: int = 5) -> List[Seq]:
@@ -241,12 +251,12 @@ def canon(v: Any) -> Any:
     if isinstance(v, Seq):
         return ("seq", tuple(canon(x) for x in v))
     if isinstance(v, (list, tuple)):
-        return ("lst" if isinstance(v, list) else "tup", tuple(canon(x) for x in v))
+        return ("seq" if isinstance(v, list) else "tup", tuple(canon(x) for x in v))
     if isinstance(v, dict):
         return ("dict", tuple((k, canon(x)) for k, x in v.items()))
     if isinstance(v, Rec):
         return ("rec", v.ident)
-    return ("other", repr(v))
+    return ("other", type(v).__name__)
 
 
 def pyeval(e: ast.AST, ds: Seq, extra: Optional[Dict[str, Any]] = None):
